@@ -77,8 +77,8 @@ def lccDrho (scale n nc t0nm1 psi0 : α) (tchi scchi psi dpsi : α) : α :=
       (RealLike.exp (sq nc / ((1 : α) + n) * psi) * emPsi tchi scchi - (t0nm1 + 1)) / (-n)
     else Dexp (-n * psi) (-n * psi0) * dpsi))
 
-/-- the careful evaluation of `nc = sqrt((1 − n)(1 + n))` for `n >= 1/4` (arguments as in `Init`) -/
-def lccNcCareful (E : Ell α) (n den : α)
+/-- the careful evaluation of `1 − n` for `n >= 1/4` (arguments as in `Init`; the variable `t` of the code after its last update) -/
+def lccOneMinusN (E : Ell α) (den : α)
     (sphi1 tphi1 scphi1 shxi1 chxi1 xi1 tchi1 scchi1 tbet1 scbet1 : α)
     (sphi2 tphi2 scphi2 shxi2 chxi2 xi2 tchi2 scchi2 tbet2 scbet2 : α) : α :=
   let e2 := E.e2
@@ -115,7 +115,14 @@ def lccNcCareful (E : Ell α) (n den : α)
     - (dchxiZ1 + dchxiZ2) / 2
   let dchia := amu12 - dnu12 * (scphi2 + scphi1)
   let tam := (dchia - dtchi * dbet) / (scchi1 + scchi2)
-  let t := t * (tbm - tam)
+  t * (tbm - tam)
+
+/-- `nc = sqrt((1 − n)(1 + n))` for `n >= 1/4`, with `1 − n` evaluated carefully -/
+def lccNcCareful (E : Ell α) (n den : α)
+    (sphi1 tphi1 scphi1 shxi1 chxi1 xi1 tchi1 scchi1 tbet1 scbet1 : α)
+    (sphi2 tphi2 scphi2 shxi2 chxi2 xi2 tchi2 scchi2 tbet2 scbet2 : α) : α :=
+  let t := lccOneMinusN E den sphi1 tphi1 scphi1 shxi1 chxi1 xi1 tchi1 scchi1 tbet1 scbet1
+             sphi2 tphi2 scphi2 shxi2 chxi2 xi2 tchi2 scchi2 tbet2 scbet2
   RealLike.sqrt (fmax (0 : α) t * ((1 : α) + n))
 
 /-- `x` of a cone from `nrho0 = n·rho0`, `drho = rho − rho0`, `sin(theta)` and `lam` (the cylinder when `n = 0`) -/
@@ -408,6 +415,11 @@ def DD2Inner (e2 : α) (m kmax : Nat) : Nat → α → α → α
     let c := c / ofInt (((kmax : Int) - (k : Int)) * (2 * ((kmax : Int) - (k : Int)) + 1))
     DD2Inner e2 m kmax k c (e2 * t + c)
 
+/-- the coefficient polynomial `t` of the `m`-th term of `DDatanhee2` after the inner loop (`c = t = m + 2` before it) -/
+def dd2Coef (e2 : α) (m : Nat) : α :=
+  let c : α := RealLike.ofNat (m + 2)
+  DD2Inner e2 m ((m + 1) / 2) ((m + 1) / 2) c c
+
 structure DD2St (α : Type) where
   m : Nat
   xy : α
@@ -420,13 +432,11 @@ def DDatanhee2Loop (E : Ell α) (dx dy : α) : Nat → DD2St α → α
   | 0, st => st.s
   | fuel + 1, st =>
     let m := st.m
-    let c : α := RealLike.ofNat (m + 2)
     let yy := st.yy * dy
     let xy := dx * st.xy + yy
     let ee := st.ee / (-E.e2m)
     let ee := if m % 2 == 0 then ee * E.e2 else ee
-    let kmax := (m + 1) / 2
-    let t := DD2Inner E.e2 m kmax kmax c c
+    let t := dd2Coef E.e2 m
     let ds := t * ee * xy / RealLike.ofNat (m + 2)
     let s := st.s + ds
     if RealLike.ltb (RealLike.abs s * (eps : α) / 2) (RealLike.abs ds) then
@@ -462,8 +472,9 @@ structure ALB (α : Type) where
   scxi0 : α
   sxi0 : α
 
-/-- one Newton step of the `tphi0` iteration of `Init`: the correction `dtu` -/
-def albNewtonStep (E : Ell α) (s sm1 tphi0 : α) : α :=
+/-- the function `u` whose zero the `tphi0` iteration of `Init` seeks and its derivative `du` with respect to `sin φ0`
+    (`axm1` is the value of `atanhxm1` at `e2·(sphi0m/(1 − e2·sphi0))²`), with `scphi0·scphi02` -/
+def albNewtonU (E : Ell α) (s sm1 tphi0 axm1 : α) : α × α × α :=
   let e2 := E.e2
   let e2m := E.e2m
   let scphi02 := (1 : α) + sq tphi0
@@ -475,13 +486,24 @@ def albNewtonStep (E : Ell α) (s sm1 tphi0 : α) : α :=
   let D := sphi0m * ((1 : α) - e2 * ((1 : α) + (2 : α) * sphi0 * ((1 : α) + sphi0))) / (e2m * ((1 : α) + sphi0))
   let dD := -(2 : α) * ((1 : α) - e2 * sq sphi0 * ((2 : α) * sphi0 + 3)) / (e2m * sq ((1 : α) + sphi0))
   let A := -e2 * sq sphi0m * ((2 : α) + ((1 : α) + e2) * sphi0) / (e2m * ((1 : α) - e2 * sq sphi0))
-  let B := sphi0m * e2m / ((1 : α) - e2 * sphi0) *
-      (atanhxm1 (e2 * sq (sphi0m / ((1 : α) - e2 * sphi0))) - e2 * sphi0m / e2m)
+  let B := sphi0m * e2m / ((1 : α) - e2 * sphi0) * (axm1 - e2 * sphi0m / e2m)
   let dAB := (2 : α) * e2 * ((2 : α) - e2 * ((1 : α) + sq sphi0)) / (e2m * sq ((1 : α) - e2 * sq sphi0) * scphi02)
   let u := sm1 * g - s / E.qZ * (D - g * (A + B))
   let du := sm1 * dg - s / E.qZ * (dD - dg * (A + B) - g * dAB)
-  let dtu := (0 : α) - u / du * (scphi0 * scphi02)
-  dtu
+  (u, du, scphi0 * scphi02)
+
+/-- the argument of `atanhxm1` in that iteration -/
+def albNewtonArg (E : Ell α) (tphi0 : α) : α :=
+  let scphi02 := (1 : α) + sq tphi0
+  let scphi0 := RealLike.sqrt scphi02
+  let sphi0 := tphi0 / scphi0
+  let sphi0m := (1 : α) / (scphi0 * (tphi0 + scphi0))
+  E.e2 * sq (sphi0m / ((1 : α) - E.e2 * sphi0))
+
+/-- one Newton step of the `tphi0` iteration of `Init`: the correction `dtu` -/
+def albNewtonStep (E : Ell α) (s sm1 tphi0 : α) : α :=
+  let r := albNewtonU E s sm1 tphi0 (atanhxm1 (albNewtonArg E tphi0))
+  (0 : α) - r.1 / r.2.1 * r.2.2
 
 def albNewtonLoop (E : Ell α) (s sm1 stol : α) : Nat → α → α
   | 0, tphi0 => tphi0
@@ -495,6 +517,39 @@ def albRatio (sphi cphi sxi cxi : α) : α :=
   if RealLike.leb sphi (0 : α) then ((1 : α) - sxi) / ((1 : α) - sphi) else sq (cxi / cphi) * ((1 : α) + sphi) / ((1 : α) + sxi)
 /-- `sphi <= 0 ? 1 − sphi : cphi²/(1 + sphi)` -/
 def albOneMinus (sphi cphi : α) : α := if RealLike.leb sphi (0 : α) then (1 : α) - sphi else sq cphi / ((1 : α) + sphi)
+
+/-- `s`, `1 − s` (`sm1`) and `C` of `Init` for two distinct parallels -/
+structure AlbSC (α : Type) where
+  s : α
+  sm1 : α
+  C : α
+
+/-- the block of `Init` that computes `s = n qZ/C`, `1 − s` and `C` from the ordered parallels; `txi1`, `txi2` are `txif` of the
+    two tangents and `dd` is `DDatanhee(sphi1, sphi2)` -/
+def albSC (E : Ell α) (sphi1 cphi1 tphi1 sphi2 cphi2 tphi2 txi1 txi2 dd : α) : AlbSC α :=
+  let e2 := E.e2
+  let fm := E.fm
+  let tbet1 := fm * tphi1
+  let scbet12 := (1 : α) + sq tbet1
+  let tbet2 := fm * tphi2
+  let scbet22 := (1 : α) + sq tbet2
+  let cxi1 := (1 : α) / hyp txi1
+  let sxi1 := txi1 * cxi1
+  let cxi2 := (1 : α) / hyp txi2
+  let sxi2 := txi2 * cxi2
+  let dtbet2 := fm * (tbet1 + tbet2)
+  let es1 := (1 : α) - e2 * sq sphi1
+  let es2 := (1 : α) - e2 * sq sphi2
+  let dsxi := (((1 : α) + e2 * sphi1 * sphi2) / (es2 * es1) + E.Datanhee sphi2 sphi1) * Dsn tphi2 tphi1 sphi2 sphi1 / ((2 : α) * E.qx)
+  let den := (sxi2 + sxi1) * dtbet2 + (scbet22 + scbet12) * dsxi
+  let s := (2 : α) * dtbet2 / den
+  let sm1 := -(Dsn tphi2 tphi1 sphi2 sphi1) *
+    (-(albRatio sphi2 cphi2 sxi2 cxi2 + albRatio sphi1 cphi1 sxi1 cxi1) *
+        ((1 : α) + e2 * (sphi1 + sphi2 + sphi1 * sphi2)) / ((1 : α) + (sphi1 + sphi2 + sphi1 * sphi2))
+      + (scbet22 * albOneMinus sphi2 cphi2 + scbet12 * albOneMinus sphi1 cphi1) *
+        (e2 * ((1 : α) + sphi1 + sphi2 + e2 * sphi1 * sphi2) / (es1 * es2) + E.e2m * dd) / E.qZ) / den
+  let C := den / ((2 : α) * scbet12 * scbet22 * dsxi)
+  ⟨s, sm1, C⟩
 
 /-- `AlbersEqualArea::Init(sphi1, cphi1, sphi2, cphi2, k1)` -/
 def albInit (E : Ell α) (sphi1 cphi1 sphi2 cphi2 k1 : α) : ALB α :=
@@ -514,33 +569,14 @@ def albInit (E : Ell α) (sphi1 cphi1 sphi2 cphi2 k1 : α) : ALB α :=
   let (sphi1, cphi1, sphi2, cphi2) := if sw then (sphi2, cphi2, sphi1, cphi1) else (sphi1, cphi1, sphi2, cphi2)
   let tphi1 := sphi1 / cphi1
   let tphi2 := sphi2 / cphi2
-  let e2 := E.e2
   let fm := E.fm
   let (tphi0, C) :=
     if polar || RealLike.eqb tphi1 tphi2 then (tphi2, (1 : α))
     else
-      let tbet1 := fm * tphi1
-      let scbet12 := (1 : α) + sq tbet1
-      let tbet2 := fm * tphi2
-      let scbet22 := (1 : α) + sq tbet2
-      let txi1 := txif E tphi1
-      let cxi1 := (1 : α) / hyp txi1
-      let sxi1 := txi1 * cxi1
-      let txi2 := txif E tphi2
-      let cxi2 := (1 : α) / hyp txi2
-      let sxi2 := txi2 * cxi2
-      let dtbet2 := fm * (tbet1 + tbet2)
-      let es1 := (1 : α) - e2 * sq sphi1
-      let es2 := (1 : α) - e2 * sq sphi2
-      let dsxi := (((1 : α) + e2 * sphi1 * sphi2) / (es2 * es1) + E.Datanhee sphi2 sphi1) * Dsn tphi2 tphi1 sphi2 sphi1 / ((2 : α) * E.qx)
-      let den := (sxi2 + sxi1) * dtbet2 + (scbet22 + scbet12) * dsxi
-      let s := (2 : α) * dtbet2 / den
-      let sm1 := -(Dsn tphi2 tphi1 sphi2 sphi1) *
-        (-(albRatio sphi2 cphi2 sxi2 cxi2 + albRatio sphi1 cphi1 sxi1 cxi1) *
-            ((1 : α) + e2 * (sphi1 + sphi2 + sphi1 * sphi2)) / ((1 : α) + (sphi1 + sphi2 + sphi1 * sphi2))
-          + (scbet22 * albOneMinus sphi2 cphi2 + scbet12 * albOneMinus sphi1 cphi1) *
-            (e2 * ((1 : α) + sphi1 + sphi2 + e2 * sphi1 * sphi2) / (es1 * es2) + E.e2m * DDatanhee E sphi1 sphi2) / E.qZ) / den
-      let C := den / ((2 : α) * scbet12 * scbet22 * dsxi)
+      let sc := albSC E sphi1 cphi1 tphi1 sphi2 cphi2 tphi2 (txif E tphi1) (txif E tphi2) (DDatanhee E sphi1 sphi2)
+      let s := sc.s
+      let sm1 := sc.sm1
+      let C := sc.C
       let tphi0 := (tphi2 + tphi1) / 2
       let tol0 : α := (sqrtEps : α) * RealLike.sqrt (sqrtEps : α)
       let stol := tol0 * fmax (1 : α) (RealLike.abs tphi0)
